@@ -2,7 +2,7 @@
 import math, random
 from core import *
 import gen
-from c05 import (DISTS, ORDERS, NFULL, any_curve, build_tables, as_out, cout, cdtab, cptab, wide_segments)
+from c05 import (DISTS, ORDERS, NFULL, CORD, any_curve, build_tables, as_out, cout, cdtab, cptab, wide_segments)
 
 METRICS = ['smape', 'rpd', 'rmspe', 'rmsle', 'r2']
 DEFAULT = ('shortest', 'segment', 'smape')      # min_point_rdp calls grdp / rdp_fixed with the defaults
@@ -28,7 +28,7 @@ class C06:
                    'shape of the distance oracle: len(distance_points(points[l:r], ...)) = r - l (checked on every table)',
                    'cases in which a priority is NaN are judged on the predicate only (Python\'s sort on NaN keys is not modelled)']
     trusted = ['modelled: rdp._grdp / grdp / mp_grdp / min_point_rdp / _rdp_fixed (mirror model of the stack and the retained list)',
-               'oracles: distance and order primitives as in C05; evaluation.compute_global_cost(points, S, cost) with a fresh cache '
+               'oracles: distance, chord and residual primitives as in C05 (priorities derived in Coq from their stated definitions); evaluation.compute_global_cost(points, S, cost) with a fresh cache '
                '(the implementation shares one cache per run: cache transparency is property C15; a cache that changed a value would show up as a disagreement)']
     timeout = 40.0
     shard = 40
@@ -63,7 +63,7 @@ class C06:
 
     def on_timeout(self, c):
         c = dict(c)
-        c.update({'chain': [], 'dt': [], 'pt': [], 'gt': [], 'queries': [], 'timeout': True})
+        c.update({'chain': [], 'dt': [], 'ct': [], 'rt': [], 'gt': [], 'queries': [], 'timeout': True})
         return c
 
     def run_impl(self, c):
@@ -82,7 +82,7 @@ class C06:
             o = as_out(st, out)
             chain.append(o[0] if o is not None else [])
         c['chain'] = chain
-        c['dt'], c['pt'], c['prio_consistent'] = build_tables(rdp, lf, pts, c['dist'], c['order'], chain, n <= NFULL)
+        c['dt'], c['ct'], c['rt'] = build_tables(rdp, lf, pts, c['dist'], c['order'], chain, n <= NFULL)
         gt, seen = [], set()
         for S in chain:
             if S and tuple(S) not in seen and all(0 <= i < n for i in S) and len(S) >= 2:
@@ -136,7 +136,7 @@ class C06:
             else:
                 qs.append('QMin %s %s %s' % (cfls(q['ts']), cnat(q['m']), cout(q['out'])))
         gt = clist(['(%s, %s)' % (cnats(S), fl(v)) for S, v in c['gt']])
-        return 'CG %s %s %s %s %s %s %s' % (cnat(n), cbool(c['cost'] == 'r2'), cdtab(c['dt']), cptab(c['pt']), gt,
+        return 'CG %s %s %s %s %s %s %s %s %s' % (cnat(n), cbool(c['cost'] == 'r2'), CORD[c['order']], cdtab(c['dt']), cptab(c['ct']), cptab(c['rt']), gt,
                                             clist([cnats(S) for S in c['chain']]), clist(qs))
 
     def nontrivial_key(self, c):
@@ -153,7 +153,6 @@ class C06:
                 'config': '%s/%s/%s' % (c['cost'], c['dist'], c['order']),
                 'kstar': 'first' if ks and min(ks) == 2 else ('all' if ks and min(ks) == n else ('inner' if ks else 'none')),
                 'queries': len(c['queries']), 'min_point_queries': sum(1 for q in c['queries'] if q['q'] == 'min'),
-                'nan_priority': any(v != v for _, v in c.get('pt', [])),
                 'exceptions': sum(1 for q in c['queries'] if q['out'] is None)}
 
     def shrink(self, c):
